@@ -104,7 +104,7 @@ def gen_program(r, idx):
         body = 'func TestShape(t *testing.T) {\n\tsnaps.MatchStandaloneSnapshot(t, "one")\n\tsnaps.MatchStandaloneSnapshot(t, "two")\n\tsnaps.MatchStandaloneJSON(t, `{"a":1}`)\n}\n'
         exp += [posixpath.join(base, 'TestShape_1.snap'), posixpath.join(base, 'TestShape_2.snap'), posixpath.join(base, 'TestShape_1.snap.json')]
     elif shape == 'config':
-        d = r.choice(['snapdir', 'n/e/sted', '../up'])
+        d = r.choice(['snapdir', 'n/e/sted'] + (['../up'] if pkgdir else []))   # '../up' from the module root would leave the scratch module
         fn = r.choice([None, 'named'])
         ext = r.choice([None, '.txt'])
         opts = ['snaps.Dir("%s")' % d] + (['snaps.Filename("%s")' % fn] if fn else []) + (['snaps.Ext("%s")' % ext] if ext else [])
